@@ -480,7 +480,14 @@ def eval_dyad_index_in_depth(a, b):
                         {y+x*x}:@[2 3]  -->  7
 
     """
-    return bknp.asarray(a)[tuple(b) if is_list(b) else b] if not is_empty(b) else b
+    if is_empty(b):
+        return b
+    if not is_list(b):
+        return bknp.asarray(a)[b]
+    r = bknp.asarray(a)
+    for i in b:  # one index per level, also through a list of row arrays or a nested list
+        r = r[i]
+    return r
 
 
 def _e_dyad_integer_divide(x, y, backend):
